@@ -48,7 +48,11 @@ def run(ctx):
         "extension FOps of Model/PolynomExt.v and takes the coefficients in the order of the coin: auxiliary random elements, "
         "transition (main, auxiliary), boundary (main, auxiliary), z, DEEP trace (main columns, then auxiliary columns CONTINUING the "
         "index), DEEP constraint columns; valid_b vs is_valid on honest and corrupted traces; seed_of vs the recorded coin seed.  "
-        "distinct = distinct case lines")
+        "Members of the Lagrange family (ext 1/2/3, n = 8/16/64) go through the same extracted verify_model with its Lagrange part "
+        "(C16's lag_new / lag_evaluate_and_combine / lag_boundary_evaluate_at in evaluate_constraints, the interpolation term of the kernel "
+        "column in the DEEP composer, the GKR verdict as a parameter): honest, a Lagrange OOD frame entry (0, 1 = read by the last "
+        "constraint only, any), an ordinary auxiliary OOD value, a refused GKR proof, a GKR proof yielding other random elements, a queried "
+        "kernel value, an OOD constraint evaluation.  distinct = distinct case lines")
     ctx.assumptions += [
         "the eps-soundness bound is NOT proved: no probability theory / random-oracle model in the installed libraries; rejection of an "
         "invalid trace is exercised, the deterministic structure behind it is proved",
@@ -57,8 +61,9 @@ def run(ctx):
         "Merkle authentication of openings (C10), proof-of-work and transcript (C04) and the FRI verdict (C05) are parameters of the "
         "model's decision function; in the correspondence they are computed with the library's public API (MerkleTree::verify_batch, "
         "coin log) resp. instantiated with the first FRI check (DEEP evaluations = layer-0 openings)",
-        "the model covers main + auxiliary trace segment (no Lagrange-kernel column: falsifier only) and FieldExtension::{None, Quadratic, "
-        "Cubic}; opened main-segment values, periodic and main assertion polynomials enter the extension through E::from (applied by the driver)",
+        "the model covers main + auxiliary trace segment incl. a Lagrange kernel column (the user's GkrVerifier is a parameter: verdict "
+        "e_gkr_ok, output lg_rands; a GKR proof that does not deserialise exactly is a ProofDeserializationError, outside the model like "
+        "every other deserialisation error) and FieldExtension::{None, Quadratic, Cubic}; opened main-segment values, periodic and main assertion polynomials enter the extension through E::from (applied by the driver)",
         "the field operations of the crate agree with Z/p on canonical residues (C07) and the extension arithmetic with C08's model: the "
         "model runs on zp_ops p and on quad_ops / cube_ops of Model/PolynomExt.v (Model/ExtField.v over the generated ExtensibleField bodies)",
     ]
@@ -87,13 +92,16 @@ def run(ctx):
         need = ["verify:honest->accept", "verify:ood-constraint-eval->ood", "verify:queried-trace-value->trace-query",
                 "verify:queried-constraint-value->cons-query", "verify:options-expected-other->options", "verify:field-modulus->field",
                 "verify:assertion-value->ood", "valid:honest->1", "valid:cell->0", "valid:cell->1", "seed:honest->",
-                "verify:ood-aux-cur->ood", "verify:ood-aux-next->ood", "verify:queried-aux-value->trace-query"]
+                "verify:ood-aux-cur->ood", "verify:ood-aux-next->ood", "verify:queried-aux-value->trace-query",
+                "verify:lag-ood-frame-0->ood", "verify:lag-ood-frame-1->ood", "verify:lag-ood-frame-any->ood", "verify:gkr-refused->gkr",
+                "verify:gkr-other-rands->ood", "verify:queried-lagrange-value->trace-query"]
         missing = [k for k in need if not any(x.startswith(k) and v > 0 for x, v in kinds.items())]
         ctx.ob("corr-harness:release", rc == 0 and len(lines) >= 10 * n and not missing,
                f"rc={rc} lines={len(lines)} missing classes={missing}: {out[-200:]}")
         # coverage of the carrier / segment layout: ACCEPTED honest proofs (the DEEP evaluations of the model are compared with the
         # layer-0 openings exactly there) per extension degree x auxiliary layout
         cov = {}
+        lagc = {}
         for l in lines:
             toks = l.split(" ")
             if toks[0] != "verify" or "tag=honest" not in toks:
@@ -101,6 +109,10 @@ def run(ctx):
             kvs = dict(t.split("=", 1) for t in toks if "=" in t and not t.startswith("=>"))
             res = l.split(" => ", 1)[1].split(" ")
             if res[0] != "accept" or len(res) < 2 or res[1] == "-":
+                continue
+            if kvs.get("famk") == "lag":   # Lagrange family: extension degree x trace length
+                key = f"lagrange:ext{kvs.get('ext', '?')}:n{int(kvs.get('n', '0'), 16)}"
+                lagc[key] = lagc.get(key, 0) + 1
                 continue
             aw, w = int(kvs.get("aw", "0"), 16), len(kvs.get("fam", "").split(";"))
             layout = "no-aux" if aw == 0 else ("aux>main" if aw > w else "aux<=main")
@@ -111,6 +123,10 @@ def run(ctx):
         thin = [k for k in want if cov.get(k, 0) < 1]
         ctx.ob("corr-coverage:aux-segment(aux_width>=1, aux_width>main width) x extension degree(1,2,3) sampled with accepted honest proofs",
                not thin, f"missing={thin} have={cov}")
+        ctx.notes["correspondence_coverage_lagrange"] = lagc
+        lthin = [k for k in (f"lagrange:ext{e}:n{n_}" for e in (1, 2) for n_ in (8, 16, 64)) if lagc.get(k, 0) < 1]
+        ctx.ob("corr-coverage:Lagrange kernel column x extension degree(1,2) x n(8,16,64) sampled with accepted honest proofs",
+               not lthin, f"missing={lthin} have={lagc}")
         ctx.correspondence("verifier-decision+validity+seed:release", lines, drv, timeout=900, shards=4)
         for sm in ctx.samples:  # case lines carry whole parsed proofs: keep the evidence readable
             for k in ("case", "impl", "model"):
@@ -210,4 +226,5 @@ def run(ctx):
         "argument; the counting lemmas are for FIXED polynomials (divisibility), not for closeness to low-degree polynomials; that the prover's "
         "numerators satisfy HN/HB (C09/C17/C20); boundary terms of accept_gives_polynomial_relation are kept in evaluation form; the DEEP "
         "binding is proved at ONE query position as linear algebra over the coefficient vector (deep_ood_binding_partial), not as a statement "
-        "about low-degree polynomials; the Lagrange-kernel column is not in the executable model (falsifier only)")
+        "about low-degree polynomials; the interpolant p_S of the DEEP Lagrange term is modelled by its value (Lagrange's formula), not by the "
+        "code of polynom::interpolate (C20); panics of the Lagrange code on frames of inconsistent length are outside the verdict enum")
